@@ -460,6 +460,12 @@ func contains(l []uint64, v uint64) bool {
 
 func renderIndex(kind string, tokens []string, w *world) string {
 	parts := []string{"index", kind}
+	if w.compact { // the namespace table, in table order
+		for _, ns := range w.nt.FromEncoded {
+			parts = append(parts, "'"+string(ns))
+		}
+		parts = append(parts, "|")
+	}
 	for _, t := range tokens {
 		parts = append(parts, "'"+t, "(")
 		for _, v := range w.lists[t] {
